@@ -2,7 +2,7 @@
    Property theorems only; proofs in Compose.v, Shard.v. Partial: see the note below. *)
 From Coq Require Import List ZArith NArith Bool.
 From Verif Require Import Base Grid Select Shard Exec Compose Bin BinProofs.
-From Verif Require Agg AggProofs.
+From Verif Require Agg AggProofs Trees.
 Import ListNotations.
 Open Scope Z_scope.
 
@@ -67,6 +67,17 @@ Print Assumptions C11_aggregate_order_independent.
 (* count satisfies the hypothesis *)
 Example C11_count_commutes : forall (a : nat) (x y : unit), S (S a) = S (S a).
 Proof. reflexivity. Qed.
+
+(* Whole operator trees (joins with their reused tables, per-sample operators,
+   count tables over sharded, batched selectors): the stream does not depend on
+   the shard count or the batch size. *)
+Theorem C11_tree_independent_of_sharding_and_batching :
+  forall (cf cf' : cfg) (w : window) (t : Trees.jtree),
+  (0 < c_shards cf)%nat -> (0 < c_batch cf)%nat -> (0 < c_shards cf')%nat -> (0 < c_batch cf')%nat ->
+  0 <= c_lookback cf -> c_lookback cf' = c_lookback cf -> wf_window w -> Bin.noT < w_start w -> Trees.jok t ->
+  Trees.jrun cf w t = Trees.jrun cf' w t.
+Proof. exact Trees.jtree_independent_of_sharding_and_batching. Qed.
+Print Assumptions C11_tree_independent_of_sharding_and_batching.
 
 (* PARTIAL. Proved: independence of the shard count and of batching for every
    operator tree, with each operator's Next taken as atomic and the coalesce
